@@ -78,4 +78,5 @@ def witnesses():
             "C04-footnote-label-lowercased": "[^note]" in P.fmt("Text[^Note].\n\n[^Note]: The note.\n", width=88),
             "C04-info-string-space-runs": '```python title="x"' in P.fmt('```python   title="x"\ncode\n```\n', width=88),
             "C04-image-reference-expanded": "![alt](/u)" in P.fmt("![alt][r]\n\n[r]: /u\n", width=88),
+            "C04-whitespace-only-code-line-emptied": P.fmt("```\n \n  x\n```\n", width=88) == "```\n\n  x\n```\n",
             "C04-hard-break-inside-inline-html": "<span\\\n" in P.fmt('A <span  \nclass="x">b</span> c\n', width=88)}
